@@ -534,7 +534,15 @@ func (d *resolveUndoDecoder) readEntry() (*ResolveUndoEntry, error) {
 		}
 	}
 
-	for s := range e.Stages {
+	// Object names follow in ascending stage order, one per stage whose
+	// mode was not zero (resolve-undo.c); ranging over the map would
+	// attribute them in random order.
+	for i := range 3 {
+		s := Stage(i + 1)
+		if _, ok := e.Stages[s]; !ok {
+			continue
+		}
+
 		var h plumbing.Hash
 		h.ResetBySize(d.h.Size())
 		if _, err := h.ReadFrom(d.r); err != nil {
